@@ -10,7 +10,7 @@ import (
 )
 
 func init() {
-	Registry["C08"] = Check{Level: "model_checking", Run: runC08, Replay: replayC08}
+	Registry["C08"] = Check{GC: 25, Level: "model_checking", Run: runC08, Replay: replayC08}
 }
 
 // alphabets concentrated at the top of the address space
